@@ -244,6 +244,16 @@ class ExcAnalysis:
             # ---- calls -----------------------------------------------------------------------------------------
             elif isinstance(n, ast.Call):
                 self._call(fn, n, ob)
+            # ---- members of sets / keys of dicts are hashed ----------------------------------------------------------
+            elif isinstance(n, (ast.Set, ast.SetComp, ast.Dict, ast.DictComp)):
+                keys_ = list(n.elts) if isinstance(n, ast.Set) else [n.elt] if isinstance(n, ast.SetComp) else \
+                    [k for k in n.keys if k is not None] if isinstance(n, ast.Dict) else [n.key]
+                for k_ in keys_:
+                    why_ = self._unhashable(A.type_at(fn, k_, n), 0)
+                    if why_ and A.at(fn, k_, n).none != YES:
+                        ob(k_, 'unhashable', 'TypeError',
+                           f'`{ast.unparse(k_)[:40]}` becomes a {"set member" if isinstance(n, (ast.Set, ast.SetComp)) else "dict key"}: it is '
+                           f'hashed, and {why_}')
             # ---- iteration over Optional ------------------------------------------------------------------------
             elif isinstance(n, (ast.For, ast.comprehension)):
                 v = A.at(fn, n.iter, n if isinstance(n, ast.For) else n.iter)
@@ -1215,7 +1225,7 @@ class ExcAnalysis:
     def _dispatch_facts(self, fn: FuncInfo, X: ast.expr) -> List[Tuple[str, Tuple[str, str], str]]:
         """Facts `X.g == Enum.M` that hold in a method because of HOW it is reached: every call of it is `r.m(.., a, ..)` with
         `a` bound to the parameter X and the receiver `r = factory(.., a.g, ..)` built, in the same caller, from that very
-        object's field g; interpreting the factory for every member of g's enum (E6, the other arguments opaque names) shows
+        object's field g; interpreting the factory for every member of g's enum (E7, the other arguments opaque names) shows
         that the object it returns dispatches `m` to this method for the single member M only."""
         out: List[Tuple[str, Tuple[str, str], str]] = []
         if fn.cls is None or not isinstance(X, ast.Name) or X.id not in [a.arg for a in fn.params()][1:] or fn.is_static:
@@ -1467,6 +1477,17 @@ class ExcAnalysis:
         for c in callees:
             if isinstance(c, tuple) and c[0] == 'unknown':
                 self.unresolved_calls.append((fn, n, c[1]))
+        # arguments of a memoising function are hashed
+        for c in callees:
+            if isinstance(c, FuncInfo) and self._memoised(c):
+                for a_ in list(n.args) + [k.value for k in n.keywords if k.arg is not None]:
+                    if isinstance(a_, ast.Starred):
+                        continue
+                    why_ = self._unhashable(A.type_at(fn, a_, n), 0)
+                    if why_ and A.at(fn, a_, n).none != YES:
+                        ob(n, 'unhashable', 'TypeError',
+                           f'`{ast.unparse(a_)[:40]}` is handed to {c.qualname}, which memoises its results (functools cache): the argument '
+                           f'is hashed, and {why_}')
         # arity of resolved package calls
         fis = [c for c in callees if isinstance(c, FuncInfo)]
         ctor = next((c[1] for c in callees if isinstance(c, tuple) and c[0] == 'ctor'), None)
@@ -1477,6 +1498,53 @@ class ExcAnalysis:
             self._arity_ctor(fn, n, ctor, ob)
         elif len(fis) == 1:
             self._arity(fn, n, fis[0], ob)
+
+    @staticmethod
+    def _memoised(f: FuncInfo) -> bool:
+        for d in f.node.decorator_list:
+            d = d.func if isinstance(d, ast.Call) else d
+            nm = d.id if isinstance(d, ast.Name) else d.attr if isinstance(d, ast.Attribute) else ''
+            if nm in ('lru_cache', 'cache'):
+                return True
+        return False
+
+    def _unhashable(self, t: tuple, depth: int) -> Optional[str]:
+        """Why a value of static type t cannot be hashed (None: it can, or it is not known)."""
+        t = strip_opt(t)
+        if t[0] in ('list', 'dict', 'set'):
+            return f'a {t[0]} is not hashable'
+        if t[0] != 'cls' or t[1] not in self.prog.classes or depth > 3:
+            return None
+        c = self.prog.classes[t[1]]
+        if c.is_enum:
+            return None
+        for a in self.prog.ancestors(c):
+            if isinstance(a, ClassInfo):
+                if '__hash__' in a.methods:
+                    return None
+                if any(isinstance(st, ast.Assign) and any(isinstance(x, ast.Name) and x.id == '__hash__' for x in st.targets)
+                       for st in a.node.body):
+                    return f'{c.name} sets __hash__ = None'
+        if c.is_dataclass:
+            kw = {}
+            for d in c.node.decorator_list:
+                if isinstance(d, ast.Call):
+                    kw.update({k.arg: k.value.value for k in d.keywords if isinstance(k.value, ast.Constant)})
+            if kw.get('eq') is False or kw.get('unsafe_hash') is True and not c.frozen:
+                return None if kw.get('eq') is False else None
+            if not c.frozen:
+                return f'{c.name} is a dataclass with eq and without frozen: it has no __hash__'
+        record = c.is_dataclass or any(str(b).split('.')[-1] == 'NamedTuple' for b in c.bases)
+        if record:
+            for nm, (ann, _d, owner) in self.prog.class_fields(c).items():
+                ft = self.prog.ann_to_type(owner.module, ann, owner) if ann is not None else ANY
+                why = self._unhashable(ft, depth + 1)
+                if why:
+                    return f'the hash of a {c.name} is computed from its fields and its field `{nm}` cannot be hashed ({why})'
+            return None
+        if any('__eq__' in a.methods for a in self.prog.ancestors(c) if isinstance(a, ClassInfo)):
+            return f'{c.name} defines __eq__ without __hash__'
+        return None
 
     def _arity(self, fn: FuncInfo, n: ast.Call, callee: FuncInfo, ob, skip_self: Optional[bool] = None):
         if any(isinstance(a, ast.Starred) for a in n.args) or any(k.arg is None for k in n.keywords):
